@@ -129,7 +129,12 @@ func c18LayoutBody(r *Rng, tp *tokProg) string {
 				}
 				b.WriteString([]string{" /* c */ ", " /*/ slash first */ ", " /***/ ", " /* * / */ ", " /* \" ' */ ", " /*//*/ ", " /* " + K["print"] + " 1; */ ", " /**/ "}[r.Intn(8)])
 			case 2:
-				if mayBreak {
+				if mayBreak && r.Intn(3) == 0 {
+					if b.Len() == 0 && strings.HasSuffix(tp.lex[i-1], "/") {
+						b.WriteString(" ") // "/" directly followed by "//" would start the comment one character early
+					}
+					b.WriteString([]string{"//\n", " //\n", "//\r\n", "// \n"}[r.Intn(4)]) // a comment with no text at all
+				} else if mayBreak {
 					b.WriteString(" // note " + K["print"] + " \"x\";\n")
 				} else {
 					b.WriteString("  ")
@@ -258,7 +263,11 @@ func c18Transforms() []c18Transform {
 			back := map[string]string{}
 			for i, n := range names {
 				var nn string
-				switch r.Intn(5) {
+				switch r.Intn(7) {
+				case 5, 6:
+					// words that begin like a keyword or a word operator and go on with a combining mark or a letter
+					stem := []string{K["or"] + "\u0982\u09b2\u09be", K["or"] + "\u0981\u09b6\u09bf", K["and"] + "\u09b6", K["for"] + "\u09cd\u09ae\u09c1\u09b2\u09be", K["true"] + "\u09bf", K["var"] + "\u09c7", K["if"] + "\u09cb", K["print"] + "_", "nil\u0981", K["or"] + "\u0983"}[r.Intn(10)]
+					nn = fmt.Sprintf("%s%d_%d", stem, i, r.Intn(90))
 				case 3:
 					nn = fmt.Sprintf("_zq%d_%d", i, r.Intn(90)) // leading underscore
 				case 4:
